@@ -1837,6 +1837,46 @@ def _inside(outer, inner):
     return any(x is inner for x in ast.walk(outer))
 
 
+
+def r8_placeholder_families_disjoint(ctx, rid):
+    """_expr_to_jac_str prints a derivative by substituting every state symbol and every delayed-state symbol by a temporary
+    placeholder symbol and then replacing the placeholder texts by code (`y[i]`, `_yhist_d[k]`).  The placeholder names of the
+    two families are built from a counter each; if both families use the same name template, the k-th delayed term takes over
+    the placeholder of state variable k and every occurrence of that state variable is printed as a history component."""
+    import ast as _ast
+    from engine.util import fstring_template as _ft
+    checked = 0
+    for q in ("ComputeGraph._expr_to_jac_str",):
+        f = ctx.repo.get_func(CG, q)
+        fams = []
+        for loop in [n for n in walk_shallow(f.node) if isinstance(n, _ast.For)]:
+            for c in _ast.walk(loop):
+                if isinstance(c, _ast.Call) and call_name(c) == "Symbol" and c.args and isinstance(c.args[0], _ast.JoinedStr):
+                    tpl = _ft(c.args[0])
+                    # normalise the counter hole
+                    fams.append((re.sub(r"⟨.*?⟩", "⟨k⟩", tpl), loop, c))
+        if len(fams) < 2:
+            raise AnalysisError(f"{rid}: {f.qual}: expected two placeholder families (state symbols, delayed-state symbols), found {len(fams)}")
+        checked += 1
+        seen = {}
+        clash = None
+        for tpl, loop, c in fams:
+            if tpl in seen and seen[tpl] is not loop:
+                clash = (tpl, c)
+            seen.setdefault(tpl, loop)
+        facts = {"templates": [t for t, _, _ in fams]}
+        if clash:
+            ctx.violation(rid, f, clash[1], f"two placeholder families share the name template `{clash[0]}`: for equal counters the later family "
+                                            f"overwrites the code string of the earlier one (state variable k is printed as delayed term k)", facts,
+                          label="placeholder name families are disjoint")
+        else:
+            # no template may be a prefix-extension of another with a hole at the boundary (ambiguous textual replacement)
+            ctx.ok(rid, f, fams[0][2], "state and delayed-state placeholders use different name templates", facts,
+                   label="placeholder name families are disjoint")
+    if checked < 1:
+        raise AnalysisError(f"{rid}: no placeholder printer analysed")
+
+
 RULES = [
     ("C12-R1", r1_index_provenance, 20),     # 8 row/column stores, 2 emitters, 1 hand-over, 2 Fortran lines, 5 text indices, 2 hooks
     ("C12-R2", r2_layout_loops, 6),          # 3 loops x (extent) + 2 sibling comparisons + per-DE lists
@@ -1845,4 +1885,5 @@ RULES = [
     ("C12-R5", r5_index_base, 9),            # 2 emitters + 2 Fortran lines + 5 text indices
     ("C12-R6", r6_placeholder_map, 2),
     ("C12-R7", r7_algebraic_expansion_fixpoint, 3),       # 2 _expr_to_jac_str call sites
+    ("C12-R8", r8_placeholder_families_disjoint, 1),
 ]
